@@ -93,12 +93,14 @@ FUNCTIONS['_XLFN.IFNA'] = FUNCTIONS['IFNA'] = {
 
 
 def xswitch(val, *args):
-    if isinstance(val, bool):
-        condition = lambda x: val is x
+    if isinstance(val, (bool, np.bool_)):  # Computed logicals are numpy's.
+        condition = lambda x: isinstance(x, (bool, np.bool_)) and val == x
     elif isinstance(val, str):  # Text is matched case-insensitively.
         condition = lambda x: isinstance(x, str) and val.upper() == x.upper()
     else:  # A number never matches a logical (in python True == 1).
-        condition = lambda x: not isinstance(x, bool) and val == x
+        condition = lambda x: not isinstance(
+            x, (bool, np.bool_)
+        ) and val == x
     for k, v in zip(args[::2], args[1::2]):
         if isinstance(k, XlError):
             return k
